@@ -18,7 +18,9 @@ def kw_c15(rng, case):
     else:
         m1, m2 = sorted([rng.choice([0, T * 10 ** rng.uniform(-6, 1)]), T * 10 ** rng.uniform(-6, 1)])
         mt = rng.choice([None, None, 0, T * 10 ** rng.uniform(-5, 0.5)])
-    return {"MRTS": m1, "MRTS2": m2, "max_tau": mt, "RI": rng.random() < 0.4}
+    # the same two thresholds in the form the user passes them (python int, numpy scalar, 0-d array): same numbers
+    return {"MRTS": m1, "MRTS2": m2, "max_tau": mt, "RI": rng.random() < 0.4,
+            "MRTS_u": common.as_user_number(rng, float(m1)), "MRTS2_u": common.as_user_number(rng, float(m2))}
 
 
 class Prop(BaseProp):
@@ -54,6 +56,9 @@ class Prop(BaseProp):
         a, b = sts[0], sts[1]
         kwc = case["kw"]
         m1, m2, mt, RI = kwc["MRTS"], kwc["MRTS2"], kwc["max_tau"], kwc["RI"]
+        u1, u2 = kwc.get("MRTS_u", m1), kwc.get("MRTS2_u", m2)
+        if not (isinstance(u1, float) and isinstance(u2, float)) or isinstance(u1, np.floating) or isinstance(u2, np.floating):
+            ctx.count("mrts_passed_as_int_or_numpy_object")
         ctx.sample({"trains": tr, "edges": [ts, te], "kw": kwc})
         dy = bool(case.get("dyadic"))
 
@@ -89,24 +94,24 @@ class Prop(BaseProp):
         if m2 > m1:
             ctx.count("mrts_pair_distinct")
         args = (lst,) if N > 2 else (a, b)
-        p1 = ctx.call(ps.isi_profile, *args, MRTS=m1)
-        p2 = ctx.call(ps.isi_profile, *args, MRTS=m2)
+        p1 = ctx.call(ps.isi_profile, *args, MRTS=u1)
+        p2 = ctx.call(ps.isi_profile, *args, MRTS=u2)
         if ctx.expect(np.array_equal(p1.x, p2.x), "mrts-changes-breakpoints:isi", "breakpoints depend on MRTS"):
             ctx.expect(bool(np.all(p2.y <= p1.y + 1e-12)), "mrts-increases:isi-profile", "raising MRTS %r->%r increases an ISI value: %s -> %s"
                        % (m1, m2, common.short(p1.y.tolist()), common.short(p2.y.tolist())))
             if np.any(p2.y < p1.y - 1e-9):
                 ctx.count("monotone_strict_decrease_seen")
-        p1 = ctx.call(ps.spike_profile, *args, MRTS=m1, RI=RI)
-        p2 = ctx.call(ps.spike_profile, *args, MRTS=m2, RI=RI)
+        p1 = ctx.call(ps.spike_profile, *args, MRTS=u1, RI=RI)
+        p2 = ctx.call(ps.spike_profile, *args, MRTS=u2, RI=RI)
         if ctx.expect(np.array_equal(p1.x, p2.x), "mrts-changes-breakpoints:spike", "breakpoints depend on MRTS"):
             ctx.expect(bool(np.all(p2.y1 <= p1.y1 + 1e-12) and np.all(p2.y2 <= p1.y2 + 1e-12)), "mrts-increases:spike-profile",
                        "raising MRTS %r->%r increases a SPIKE value (RI=%r): y1 %s -> %s" % (m1, m2, RI, common.short(p1.y1.tolist()), common.short(p2.y1.tolist())))
         for nm, fn, extra in (("isi_distance", ps.isi_distance, {}), ("spike_distance", ps.spike_distance, {"RI": RI})):
-            d1 = ctx.call(fn, *args, MRTS=m1, **extra)
-            d2 = ctx.call(fn, *args, MRTS=m2, **extra)
+            d1 = ctx.call(fn, *args, MRTS=u1, **extra)
+            d2 = ctx.call(fn, *args, MRTS=u2, **extra)
             ctx.expect(d2 <= d1 + 1e-12, "mrts-increases:" + nm, "%s rises from %r to %r when MRTS goes %r->%r" % (nm, d1, d2, m1, m2))
-        s1 = ctx.call(ps.spike_sync_profile, *args, MRTS=m1, max_tau=mt)
-        s2 = ctx.call(ps.spike_sync_profile, *args, MRTS=m2, max_tau=mt)
+        s1 = ctx.call(ps.spike_sync_profile, *args, MRTS=u1, max_tau=mt)
+        s2 = ctx.call(ps.spike_sync_profile, *args, MRTS=u2, max_tau=mt)
         if ctx.expect(np.array_equal(s1.x, s2.x) and np.array_equal(s1.mp[1:-1], s2.mp[1:-1]), "mrts-changes-events:sync", "event times / multiplicities depend on MRTS"):
             near = False
             if not dy:
